@@ -4,7 +4,7 @@ CONSTANTS
   RLCounts = {1}
   RLMaxRuns = 1
   SmallLen = 5
-  LzwLens = {250, 251, 252, 253, 254, 255, 256, 257, 258, 259, 260, 261, 262, 764, 765, 766, 767, 768, 769, 770, 771, 772, 773, 774, 775, 776, 777, 778, 779, 780}
+  LzwLens = {3850, 250, 251, 252, 253, 254, 255, 256, 257, 258, 259, 260, 261, 262, 764, 765, 766, 767, 768, 769, 770, 771, 772, 773, 774, 775, 776, 777, 778, 779, 780}
   BREAK = "none"
 INVARIANTS LZWOK
 CHECK_DEADLOCK FALSE
